@@ -106,6 +106,7 @@ type Ctx struct {
 	watchSlots     map[*Value]string
 	NoMerge        bool
 	stopAtBoundary bool
+	axiomDone      map[int64]bool
 	spec           int
 	// frame monitor
 	protected map[*Shadow]string
